@@ -171,6 +171,14 @@ def impl(c):
         except Exception as e:
             ser_same = "raised " + type(e).__name__
     same = (o == fresh)
+    # ... and its order: the same pairs inserted in another order are a different simfile
+    if c["kind"] in ("sm", "ssc") and len(items) >= 2:
+        other = cls()
+        for k, v in reversed(items):
+            OrderedDict.__setitem__(other, k, v)
+        other.charts = []
+        if (o == other) or not (o != other) or (other == o):
+            same = "equal to a simfile holding the same pairs in reverse order"
     # ... and the serialisation, parsed as MSD, lists exactly the mapping's items (an SSC chart: NOTEDATA first, its note data last)
     ser_items = None
     if c["kind"] in ("sm", "ssc") or (c["kind"] == "sscchart" and any(k in ("NOTES", "NOTES2") for k, _ in items)):
